@@ -7,6 +7,7 @@ package main
 
 import (
 	"fmt"
+	"math"
 	"os"
 	"sort"
 	"strings"
@@ -226,6 +227,120 @@ func (m *Machine) concretize(t *Term, lo, hi int64, what string) int64 {
 	return vals[0]
 }
 
+// floatSamples: boundary values at which float arithmetic, rounding and
+// float<->integer conversion change behaviour.
+var floatSamples = []float64{0, math.Copysign(0, -1), 1, -1.5, 0.1, 1500000, 1 << 31, 1 << 53, 1 << 63, -(1 << 63), 1<<63 + 2048, 1 << 64,
+	1e21, 1e300, 5e-324, math.MaxFloat32, math.Inf(1), math.NaN()}
+
+// after the first two sampled values on a path only these are tried (plus the
+// model's value): the product of sample sets would otherwise dominate
+var floatSamplesFew = []float64{0, 1.5, 1 << 63}
+
+var intSamples = []int64{0, 1, -1, 2, 127, 128, 1 << 24, 1<<24 + 1, 1 << 31, 1<<31 - 1, -(1 << 31), 1 << 32, 1 << 53, 1<<53 + 1, 1 << 62,
+	math.MaxInt64, math.MinInt64, math.MaxInt64 - 511}
+
+// sampleBits case-splits t over the feasible members of cands plus the value
+// the current model gives it. This is an under-approximation: the path set
+// that follows covers those values only, so every path through here is marked
+// as sampled and the harness cannot be reported as exhaustively decided.
+func (m *Machine) sampleBits(t *Term, cands []uint64, what string) *Term {
+	if t.IsConst() {
+		return t
+	}
+	eqv := func(v uint64) *Term { return m.st.Eq(t, m.st.Const(t.W, v)) }
+	note := fmt.Sprintf("%s at %s: symbolic value sampled at boundary values (not exhaustive)", what, m.site())
+	seenNote := false
+	for _, u := range m.inconclusive {
+		if u == note {
+			seenNote = true
+		}
+	}
+	if !seenNote {
+		m.inconclusive = append(m.inconclusive, note)
+	}
+	if m.pos < len(m.prefix) {
+		v := uint64(m.prefix[m.pos])
+		m.trace = append(m.trace, int64(v))
+		m.pos++
+		m.addPC(eqv(v))
+		return m.st.Const(t.W, v)
+	}
+	var vals []uint64
+	models := map[uint64]Model{}
+	seen := map[uint64]bool{}
+	try := func(v uint64) {
+		v &= mask(t.W)
+		if seen[v] {
+			return
+		}
+		seen[v] = true
+		ok, model, r := m.feasible(eqv(v))
+		if ok && r == Sat {
+			vals = append(vals, v)
+			models[v] = model
+		}
+	}
+	if m.lastModel != nil {
+		try(EvalTerm(t, m.lastModel, map[*Term]uint64{}))
+	}
+	for _, c := range cands {
+		try(c)
+	}
+	if len(vals) == 0 {
+		// none of the samples is feasible: take whatever the solver offers
+		ok, model, r := m.feasible(m.st.Bool(true))
+		if !ok || r != Sat || model == nil {
+			m.end("inconclusive", "no sample value for %s", what)
+		}
+		v := EvalTerm(t, model, map[*Term]uint64{})
+		vals = append(vals, v)
+		models[v] = model
+	}
+	for i := len(vals) - 1; i >= 1; i-- {
+		m.pushAlt(int64(vals[i]), models[vals[i]])
+	}
+	m.trace = append(m.trace, int64(vals[0]))
+	m.pos++
+	if models[vals[0]] != nil {
+		m.lastModel = models[vals[0]]
+	}
+	m.addPC(eqv(vals[0]))
+	return m.st.Const(t.W, vals[0])
+}
+
+func (m *Machine) sampleFloat(t *Term, what string) *Term {
+	var cands []uint64
+	list := floatSamples
+	if m.nSampled >= 2 {
+		list = floatSamplesFew
+	}
+	m.nSampled++
+	for _, f := range list {
+		if t.W == 32 {
+			cands = append(cands, uint64(math.Float32bits(float32(f))))
+		} else {
+			cands = append(cands, math.Float64bits(f))
+		}
+	}
+	return m.sampleBits(t, cands, what)
+}
+
+func (m *Machine) sampleInt(t *Term, unsigned bool, what string) *Term {
+	var cands []uint64
+	list := intSamples
+	if m.nSampled >= 2 {
+		list = list[:3]
+	}
+	m.nSampled++
+	for _, v := range list {
+		cands = append(cands, uint64(v))
+	}
+	if unsigned && m.nSampled <= 2 {
+		cands = append(cands, math.MaxUint64, 1<<63)
+	}
+	return m.sampleBits(t, cands, what)
+}
+
 func (m *Machine) assume(c *Term) {
 	if c.IsTrue() {
 		return
@@ -338,6 +453,7 @@ func (m *Machine) resetPath(h *Harness, prefix []int64, model Model) {
 	m.harness = h
 	m.mapOrderFork = true
 	m.inconclusive = nil
+	m.nSampled = 0
 	m.lenient = false
 }
 
